@@ -82,6 +82,25 @@ func (sc *Scenario) Materialize(root string, resultDir string) ([]string, error)
 	}
 	args := []string{"project=" + p, "plotNr=" + sc.PlotNr, "poligonID=" + sc.Polygon, "fcode=" + sc.Weather.Code,
 		"resultfolder=" + resultDir}
+	if len(sc.AliasCrops) > 0 {
+		// a parameter folder of the project's own: every shipped file plus the parameter files the project supplies
+		pdir := "parameter_" + p
+		if _, err := os.Lstat(filepath.Join(root, pdir)); err != nil {
+			if err := linkParamFolder(filepath.Join(root, pdir), nil); err != nil {
+				return nil, err
+			}
+		}
+		for a, src := range sc.AliasCrops {
+			for _, ext := range []string{"", ".yml"} {
+				b, err := os.ReadFile(filepath.Join(paramDir, "PARAM."+src+ext))
+				if err != nil {
+					return nil, err
+				}
+				os.WriteFile(filepath.Join(root, pdir, "PARAM."+a+ext), b, 0644)
+			}
+		}
+		args = append(args, "parameter="+pdir)
+	}
 	args = append(args, sc.ExtraArgs...)
 	return args, nil
 }
